@@ -162,6 +162,8 @@ def check_string_buffers(ctx, unit, tag="", only_chart=None):
              "characters behind a view's data() (its terminator is not readable), sizeof(Char)*(length+1) behind a string's buffer", 6)
     ctx.rule("B2.write-within-allocation", "every memcpy destination range and every element write into a freshly allocated "
              "buffer lies inside the allocation, with sizeof(Char) >= 1 symbolic (the terminator needs sizeof(Char) bytes)", 8)
+    ctx.rule("B2.copy-source-nonnull", "a memcpy whose source is null when empty (a view's data(), a string's buffer) runs only "
+             "under a test that the count is non-zero or the source non-null", 6)
     ctx.rule("I.terminator", "whenever a fresh buffer is installed, buffer[new length] = 0 is written on the way", 6)
     ctx.rule("I.buffer-nonnull", "every constructor leaves the string with an allocated buffer and no member resets it to "
              "null, so data()[size()] is a readable terminator", 4)
@@ -204,6 +206,38 @@ def check_string_buffers(ctx, unit, tag="", only_chart=None):
                 elif cnt is not None:
                     ctx.inst("B2.copy-within-source", inst, True, n.loc,
                              "source is a caller-supplied pointer with caller-supplied length (%s bytes)" % cnt, f, nontrivial=False)
+                # a source that the library itself leaves null when empty (a default view's data(), a default string's
+                # buffer) is handed to memcpy only when the count is known to be non-zero
+                if ext is not None and cnt is not None:
+                    guard = None
+                    for c, t in flow.facts_at(f, n.id):
+                        x = c.strip()
+                        rel = flow.fact_relation(c, t)
+                        cand = None
+                        if rel is not None:
+                            a_, op_, b_ = rel
+                            if op_ == "!=" and (b_.strip().cv() == 0 or _is_null(b_)):
+                                cand = a_
+                            elif op_ == "!=" and (a_.strip().cv() == 0 or _is_null(a_)):
+                                cand = b_
+                            elif op_ == "<" and a_.strip().cv() == 0:
+                                cand = b_
+                        elif t and x.kind not in ("BinaryOperator", "UnaryOperator"):
+                            cand = x
+                        if cand is None:
+                            continue
+                        if canon(std_unwrap(cand)) == canon(s):
+                            guard = "source tested non-null"
+                            break
+                        cp_ = sf.poly(cand)
+                        if cp_ is not None and (cp_ == cnt or Poly.sym("S") * cp_ == cnt):
+                            guard = "count tested non-zero"
+                            break
+                    ctx.inst("B2.copy-source-nonnull", inst, guard is not None, n.loc,
+                             guard or ("memcpy(.., %s, %s) runs for a zero count too: the source pointer is null for an empty "
+                                       "%s, and memcpy's pointer arguments must be valid even for n == 0 (the optimiser "
+                                       "deletes later null tests of that pointer)" %
+                                       (canon(s).split("#")[0], cnt, "view" if what.startswith("view") else "default-constructed string")), f)
                 # destination
                 b = sf.buffer_of(dst)
                 if b is not None and b[0] in allocs and cnt is not None:
